@@ -18,6 +18,7 @@
 //!   S4V_POSTOPS=1         extra yields after a send (C18 mode)
 //!   S4V_SOURCES=a,b       basenames of the valid sources in PathId order (thread names)
 //!   S4V_POLICY=main-first|workers-first|workers-reverse   default choice beyond the prefix
+//!   S4V_TIMEOUTS=k        how often a select/recv timeout may fire per execution (default 2)
 //!   S4V_STEP_LIMIT=n      decisions before the run is declared a livelock (default 20000)
 
 use std::cell::Cell;
@@ -31,7 +32,8 @@ pub enum Op {
     Send(usize),
     PostSend(usize),
     SenderDrop(usize),
-    Select(Vec<usize>),
+    /// channels, kind: 0 blocking, 1 with timeout, 2 non-blocking (try)
+    Select(Vec<usize>, u8),
     ReceiverDrop(usize),
     Point(&'static str),
     LockAcq(&'static str, bool),
@@ -43,8 +45,9 @@ impl Op {
             Op::Send(c) => format!("S{}", c),
             Op::PostSend(c) => format!("PS{}", c),
             Op::SenderDrop(c) => format!("SD{}", c),
-            Op::Select(v) => format!(
-                "SEL[{}]",
+            Op::Select(v, k) => format!(
+                "SEL{}[{}]",
+                match k { 0 => "", 1 => "t", _ => "n" },
                 v.iter()
                     .map(|x| x.to_string())
                     .collect::<Vec<_>>()
@@ -108,6 +111,8 @@ struct State {
     locks: Vec<(&'static str, usize, bool)>,
     step_limit: usize,
     policy: u8,
+    timeouts_used: usize,
+    timeouts_max: usize,
 }
 
 static STATE: Mutex<Option<State>> = Mutex::new(None);
@@ -115,6 +120,8 @@ static CV: Condvar = Condvar::new();
 static SIGCB: Mutex<Option<Box<dyn FnOnce() + Send>>> = Mutex::new(None);
 thread_local! { static TID: Cell<Option<usize>> = const { Cell::new(None) }; }
 pub const SIGTID: usize = usize::MAX;
+/// select alternative: timeout fired / nothing ready
+pub const ALT_NONE: usize = usize::MAX - 1;
 
 static CONTROLLED: std::sync::OnceLock<bool> = std::sync::OnceLock::new();
 static POSTOPS: std::sync::OnceLock<bool> = std::sync::OnceLock::new();
@@ -166,6 +173,8 @@ pub fn init_main() {
         max_q: 0,
         locks: vec![],
         step_limit,
+        timeouts_used: 0,
+        timeouts_max: std::env::var("S4V_TIMEOUTS").ok().and_then(|s| s.parse().ok()).unwrap_or(2),
         policy: match std::env::var("S4V_POLICY").as_deref() {
             Ok("workers-first") => 1,
             Ok("workers-reverse") => 2,
@@ -258,12 +267,19 @@ impl State {
                             v.push((tid, 0, op.short()));
                         }
                     }
-                    Op::Select(cs) => {
+                    Op::Select(cs, kind) => {
+                        let mut any = false;
                         for c in cs {
                             let ch = &self.chans[*c];
                             if ch.sent > ch.recvd || !ch.sender_alive {
                                 v.push((tid, *c, format!("SEL>{}", c)));
+                                any = true;
                             }
+                        }
+                        // a timeout can fire whenever the environment is slow enough (bounded per execution);
+                        // a non-blocking select answers "nothing ready" only when nothing is ready
+                        if (*kind == 1 && self.timeouts_used < self.timeouts_max) || (*kind == 2 && !any) {
+                            v.push((tid, ALT_NONE, "SEL>none".to_string()));
                         }
                     }
                     _ => v.push((tid, 0, op.short())),
@@ -287,6 +303,7 @@ impl State {
             (c.sent, c.recvd, c.sender_alive, c.receiver_alive).hash(&mut h);
         }
         self.sig.hash(&mut h);
+        self.timeouts_used.hash(&mut h);
         self.locks.hash(&mut h);
         h.finish()
     }
@@ -408,7 +425,14 @@ impl State {
                     0
                 }
             }
-            Op::Select(_) => {
+            Op::Select(_, kind) if alt == ALT_NONE => {
+                if *kind == 1 {
+                    self.timeouts_used += 1;
+                }
+                self.events.push("t".to_string());
+                2
+            }
+            Op::Select(_, _) => {
                 let ch = &mut self.chans[alt];
                 if ch.sent > ch.recvd {
                     ch.recvd += 1;
